@@ -1382,6 +1382,12 @@ class Container:
                         small.append(row)
                 rest = [column for column in range(n + 1) if column not in small]
                 if small:
+                    # (shares of one another that add up to one - '0.9 U/U' and '0.1 U/U' - leave the amounts of those
+                    # solutes open: their rows, each divided by its own entry, are then singular whatever the units)
+                    own = a[numpy.ix_(small, small)]
+                    if abs(numpy.linalg.det(own / numpy.diag(own)[:, None])) < 1e-8:
+                        raise ValueError("Solution is impossible to create. "
+                                         "(The stated concentrations do not determine the amounts.)")
                     # (scaled so that every unknown and every row is of the order of one: a trace in moles next to an
                     # enzyme in activity units spans twenty orders of magnitude, and the pivoting would go by the units)
                     columns = numpy.abs(xs[small])
